@@ -254,6 +254,32 @@ func Run[C any](t *testing.T, gen func(*rapid.T) C, check func(C) Result) {
 	}
 }
 
+// Fuzz drives the same (gen, check) pair from Go's native coverage-guided fuzzer: the fuzzer's bytes
+// feed the rapid generators (rapid.MakeFuzz), so structured cases are mutated under coverage feedback.
+// A failing case is stored as the usual JSON replay file (the native corpus entry is kept too).
+func Fuzz[C any](f *testing.F, gen func(*rapid.T) C, check func(C) Result) {
+	name := f.Name()
+	last := envPath("VERIF_LASTFAIL")
+	wal := envPath("VERIF_WAL")
+	f.Fuzz(rapid.MakeFuzz(func(rt *rapid.T) {
+		c := gen(rt)
+		js, err := json.Marshal(c)
+		if err != nil {
+			rt.Fatalf("case not serialisable: %v", err)
+		}
+		if wal != "" {
+			writeFile(fmt.Sprintf("%s.%d", wal, os.Getpid()), name, js, "")
+		}
+		r := check(c)
+		r.Labels = append(r.Labels, "native-fuzz")
+		Record(name, js, &r)
+		if r.Fail != "" && r.Known == "" {
+			writeFile(last, name, js, r.Fail)
+			rt.Fatalf("%s", r.Fail)
+		}
+	}))
+}
+
 // Direct accounts a case that did not come from rapid (exhaustive enumerations).
 // It returns true when the case passed (or failed only inside a known finding).
 func Direct[C any](t *testing.T, c C, check func(C) Result) bool {
@@ -344,6 +370,9 @@ func Main(m *testing.M, id string) {
 	propertyID = id
 	code := m.Run()
 	if p := envPath("VERIF_PART"); p != "" {
+		if _, err := os.Stat(p); err == nil || os.Getenv("VERIF_FUZZ") != "" {
+			p = fmt.Sprintf("%s.%d", p, os.Getpid()) // fuzz coordinator and workers each leave their own counters
+		}
 		st.mu.Lock()
 		pt := part{Property: id, Evaluations: st.evals, NonTrivial: st.nontriv, Classes: st.classes, Tests: st.tests,
 			Excluded: st.excluded, Violations: st.violations, Extra: st.extra, Assumptions: st.assumptions,
